@@ -304,6 +304,12 @@ def codecs_and_slug_family():
     # separator characters that are whitespace only in Unicode mode
     alphabet += [chr(0x1c), chr(0x1f), chr(0x0b), chr(0x85), chr(0xa0),
                  chr(0x2028), chr(0x3000)]
+    # caseless compatibility characters whose NFKD form holds ASCII capitals
+    # (TM, degree C, No, double-struck R, kPa, roman numeral, bold A, squared
+    # A, Kelvin sign, a.m.)
+    alphabet += [chr(0x2122), chr(0x2103), chr(0x2116), chr(0x211d),
+                 chr(0x33a9), chr(0x2167), chr(0x1d400), chr(0x1f130),
+                 chr(0x212a), chr(0x33c2)]
     ok = re.compile(r'[a-z0-9_]*(-[a-z0-9_]+)*-?\Z')
 
     def slug_checks(x):
